@@ -71,6 +71,16 @@ func rowsOf(v *Version) (map[int]map[string]int, error) {
 	return out, nil
 }
 
+// cellText is the text of the specification's cell value v.  The value 2 is the EMPTY cell: a branch that
+// changes A from 0 to 2 clears it, a column added "filled with 2" is an empty column - to the merge the empty
+// string is a value like any other.
+func cellText(v int) string {
+	if v == 2 {
+		return ""
+	}
+	return strconv.Itoa(v)
+}
+
 func keyCell(k, j, s int) string {
 	if s <= 1 {
 		return fmt.Sprintf("key%d", k)
@@ -113,7 +123,7 @@ func csvOf(v *Version, s int) ([]byte, error) {
 				if c == "k" {
 					row[i] = keyCell(k, j, s)
 				} else {
-					row[i] = strconv.Itoa(rows[k][c])
+					row[i] = cellText(rows[k][c])
 				}
 			}
 			out = append(out, row)
@@ -492,7 +502,7 @@ func judge(sc *Scenario, o *outcome, skip map[int]bool) (kind string, detail int
 			if v == free {
 				continue
 			}
-			if r[gotCols[c]] != strconv.Itoa(v) {
+			if r[gotCols[c]] != cellText(v) {
 				return "cell", map[string]interface{}{"key": kc, "col": c, "expected": v, "observed": r[gotCols[c]], "row": r, "cols": o.Cols}
 			}
 		}
